@@ -79,4 +79,123 @@ theorem periodic_ticks_add (s : Periodic) (a b : Int) (hw : s.WF) (ha : 0 ≤ a)
 /-- status shown by a `Periodic` is the same for equivalent states -/
 theorem periodic_equiv_timeLeft {x y : Periodic} (h : Periodic.Equiv x y) : x.timeLeft = y.timeLeft := h.timeLeft
 
+/-! ### chunk independence helpers -/
+
+theorem perm_interleave {α : Type} (a1 a2 b1 b2 : List α) :
+    List.Perm ((a1 ++ a2) ++ (b1 ++ b2)) ((a1 ++ b1) ++ (a2 ++ b2)) := by
+  rw [List.append_assoc, List.append_assoc]
+  exact List.Perm.append_left a1 (List.perm_append_comm_assoc a2 b1 b2)
+
+/-- `min M (min M x + v) = min M (x + v)` for `v ≥ 0`: `Stack.increase` twice is `increase` of the sum -/
+theorem stack_increase_add (s : Stack) (u v : Int) (hv : 0 ≤ v) : (s.increase u).increase v = s.increase (u + v) := by
+  unfold Stack.increase
+  simp only [Stack.mk.injEq, and_true]
+  omega
+
+/-- `Keydown.resolving` moves `time_left` by exactly the elapsed time (the tick loop only touches the counter) -/
+theorem keydown_resolveLoop_timeLeft (n : Nat) : ∀ (rtl : Int) (s : Keydown) (k : Nat),
+    (Keydown.resolveLoop n rtl s k).1.timeLeft = s.timeLeft := by
+  induction n with
+  | zero => intro rtl s k; rfl
+  | succ n ih =>
+    intro rtl s k
+    simp only [Keydown.resolveLoop]
+    split
+    · rw [ih]
+    · rfl
+theorem keydown_resolving_timeLeft (s : Keydown) (t : Int) : (s.resolving t).1.timeLeft = s.timeLeft - t := by
+  unfold Keydown.resolving
+  simp only []
+  rw [keydown_resolveLoop_timeLeft]
+
+/-- normal form of `elapse_keydown_trait`: state, whether the key-down ended in this call, damage ticks -/
+theorem keydownSkill_elapse_state (q : KeydownSkill.P) (t : Int) (u : KeydownSkill.S) :
+    (KeydownSkill.elapse q t u).1 = { cooldown := u.cooldown.elapse t, keydown := (u.keydown.resolving t).1 } := by
+  unfold KeydownSkill.elapse
+  simp only []
+  split <;> rfl
+theorem keydownSkill_elapse_ended (q : KeydownSkill.P) (t : Int) (u : KeydownSkill.S) :
+    keydownEnded (KeydownSkill.elapse q t u).2 = (u.keydown.running && !(u.keydown.resolving t).1.running) := by
+  unfold KeydownSkill.elapse
+  simp only []
+  split
+  · rename_i h; rw [h]; simp [keydownEnded]
+  · rename_i h
+    simp only [Bool.not_eq_true] at h
+    rw [h]
+    simp [keydownEnded, List.any_replicate]
+theorem keydownSkill_elapse_ticks (q : KeydownSkill.P) (t : Int) (u : KeydownSkill.S) :
+    damageTicks (KeydownSkill.elapse q t u).2 =
+      List.replicate (u.keydown.resolving t).2 (q.damage, q.hit, none) ++
+        (if (u.keydown.running && !(u.keydown.resolving t).1.running) = true then [(q.finishDamage, q.finishHit, none)] else []) := by
+  unfold KeydownSkill.elapse
+  simp only []
+  split
+  · simp only [damageTicks_append, damageTicks_replicate_dealt]
+    simp [damageTicks]
+  · simp only [damageTicks_append, damageTicks_replicate_dealt]
+    simp [damageTicks]
+
 end Simaple.Comp.Mech
+
+namespace Simaple.Comp
+open Simaple.Entity Simaple.Comp.Mech
+
+/-! ### per-class state equivalences: equal except for the dead `interval_counter` of an expired timer
+    (`Periodic.Equiv`, `DynamicIntervalPeriodic.Equiv`) -/
+def RobotSummonSkill.Equiv (x y : RobotSummonSkill.S) : Prop :=
+  x.robotMastery = y.robotMastery ∧ x.cooldown = y.cooldown ∧ Periodic.Equiv x.periodic y.periodic
+def HommingMissile.Equiv (x y : HommingMissile.S) : Prop :=
+  x.bomberTime = y.bomberTime ∧ x.fullBarrageKeydown = y.fullBarrageKeydown ∧
+  x.fullBarragePenaltyLasting = y.fullBarragePenaltyLasting ∧ x.cooldown = y.cooldown ∧ Periodic.Equiv x.periodic y.periodic
+def MultipleOption.Equiv (x y : MultipleOption.S) : Prop :=
+  x.cycle = y.cycle ∧ x.cooldown = y.cooldown ∧ Periodic.Equiv x.periodic y.periodic ∧ x.robotMastery = y.robotMastery
+def MecaCarrier.Equiv (x y : MecaCarrier.S) : Prop :=
+  x.cooldown = y.cooldown ∧ DynamicIntervalPeriodic.Equiv x.periodic y.periodic ∧ x.robotMastery = y.robotMastery
+def AdeleEther.Equiv (x y : AdeleEther.S) : Prop :=
+  x.etherGauge = y.etherGauge ∧ Periodic.Equiv x.periodic y.periodic ∧ x.restoreLasting = y.restoreLasting
+def AdeleRuin.Equiv (x y : AdeleRuin.S) : Prop :=
+  x.cooldown = y.cooldown ∧ Periodic.Equiv x.first y.first ∧ Periodic.Equiv x.second y.second
+def AdeleStorm.Equiv (x y : AdeleStorm.S) : Prop :=
+  x.cooldown = y.cooldown ∧ Periodic.Equiv x.periodic y.periodic ∧ x.stack = y.stack ∧ x.orderSword = y.orderSword
+def MagicCurcuit.Equiv (x y : MagicCurcuit.S) : Prop :=
+  x.cooldown = y.cooldown ∧ Periodic.Equiv x.periodic y.periodic
+
+/-- `MultipleOption.ticks` over `m + n` ticks = `m` ticks, then `n` ticks from the cycle reached -/
+theorem MultipleOption.ticks_add (p : MultipleOption.P) (m n : Nat) : ∀ c : Cycle,
+    MultipleOption.ticks p (m + n) c =
+      (MultipleOption.ticks p m c).bind (fun r1 => (MultipleOption.ticks p n r1.1).map (fun r2 => (r2.1, r1.2 ++ r2.2))) := by
+  induction m with
+  | zero =>
+    intro c
+    simp only [Nat.zero_add, MultipleOption.ticks, Option.bind_some, List.nil_append]
+    cases MultipleOption.ticks p n c <;> rfl
+  | succ m ih =>
+    intro c
+    rw [Nat.succ_add]
+    simp only [MultipleOption.ticks]
+    cases hc : c.step with
+    | none => rfl
+    | some c' =>
+      simp only []
+      rw [ih c']
+      cases h1 : MultipleOption.ticks p m c' with
+      | none => rfl
+      | some r1 =>
+        simp only [Option.bind_some, Option.map_some]
+        cases h2 : MultipleOption.ticks p n r1.1 with
+        | none => rfl
+        | some r2 => rfl
+
+/-- with a non-zero period the cycle never raises -/
+theorem MultipleOption.ticks_defined (p : MultipleOption.P) (n : Nat) : ∀ c : Cycle, c.period ≠ 0 →
+    ∃ r, MultipleOption.ticks p n c = some r ∧ r.1.period = c.period := by
+  induction n with
+  | zero => intro c _; exact ⟨_, rfl, rfl⟩
+  | succ n ih =>
+    intro c hc
+    simp only [MultipleOption.ticks, Cycle.step, hc, if_false]
+    obtain ⟨r, hr, hp⟩ := ih { c with tick := Int.fmod (c.tick + 1) c.period } hc
+    exact ⟨(r.1, MultipleOption.damageEvent p c :: r.2), by rw [hr]; rfl, hp⟩
+
+end Simaple.Comp
